@@ -7,6 +7,8 @@ import (
 	"go/types"
 	"sort"
 	"strings"
+
+	"golang.org/x/tools/go/packages"
 )
 
 func init() {
@@ -23,6 +25,8 @@ func init() {
 			{Name: "C07-VIS", Floor: 10, Doc: "member lookups from outside reach their use only through a modifier test", Run: c07Run},
 			{Name: "C07-PRIV", Floor: 3, Doc: "private and protected are decided by different predicates", Run: nop},
 			{Name: "C07-TYPE", Floor: 6, Doc: "typed boundaries consult Types.Is", Run: nop},
+			{Name: "C07-REJECT", Floor: 6, Doc: "on a path where the declared type's Is(value) answered false, the boundary neither stores nor returns successfully (unless a later Is on the value answers true)", Run: nop},
+			{Name: "C07-PRED", Floor: 1, Doc: "the visibility predicate grants access only on an identity between one party itself (caller class, bound scope, or target class) and a member of the other's extends chain", Run: nop},
 			{Name: "C07-NEW", Floor: 4, Doc: "object creation is preceded by the abstract-class rejection; concrete classes validate abstract methods", Run: nop},
 		},
 	})
@@ -562,6 +566,20 @@ func c07Run(r *Run) {
 		}
 	}
 
+	// ---- REJECT ----
+	c07Reject(r, npkg)
+	// ---- PRED ----
+	preds := map[string]bool{}
+	for _, a := range arms {
+		if a.privP != "" {
+			preds[a.privP] = true
+		}
+		if a.protP != "" {
+			preds[a.protP] = true
+		}
+	}
+	c07Pred(r, npkg, preds)
+
 	// ---- NEW ----
 	r.curRule = "C07-NEW"
 	classStmt := func(t types.Type) bool { return t != nil && isNamed(t, dataPath, "ClassStmt") }
@@ -604,20 +622,493 @@ func c07Run(r *Run) {
 			r.fail("anchor not found: node.(%s).GetValue", tn)
 			continue
 		}
-		key := funcKey(npkg, fd) + "#validates-abstract-methods"
-		found := false
-		ast.Inspect(fd.Body, func(m ast.Node) bool {
-			if c, ok := m.(*ast.CallExpr); ok {
-				if f, ok := calleeOf(info, c).(*types.Func); ok && f.Name() == "ValidateConcreteClassAbstractMethods" {
-					found = true
+		c07Validates(r, npkg, fd)
+	}
+}
+
+type c07RejState struct {
+	failed map[string]token.Pos // value expression (as text) whose declared-type test answered false on this path
+}
+
+// c07Reject: in every function of package node that calls Types.Is(v), the false outcome leads to a
+// control, not to a store or a successful return.
+func c07Reject(r *Run, npkg *packages.Package) {
+	r.curRule = "C07-REJECT"
+	info := npkg.TypesInfo
+	dataPath := modPath + "/data"
+	isTypesIs := func(e ast.Expr) (string, bool) {
+		c, ok := ast.Unparen(e).(*ast.CallExpr)
+		if !ok || len(c.Args) != 1 {
+			return "", false
+		}
+		se, ok := ast.Unparen(c.Fun).(*ast.SelectorExpr)
+		if !ok || se.Sel.Name != "Is" {
+			return "", false
+		}
+		if t := info.TypeOf(se.X); t == nil || !isNamed(t, dataPath, "Types") {
+			return "", false
+		}
+		return exprStr(c.Args[0]), true
+	}
+	for _, fd := range funcDecls(npkg) {
+		// boundary functions: those with a parameter or local of type data.Value that is tested
+		has := false
+		ast.Inspect(fd.Body, func(n ast.Node) bool {
+			if e, ok := n.(ast.Expr); ok {
+				if _, ok := isTypesIs(e); ok {
+					has = true
+				}
+			}
+			return !has
+		})
+		if !has {
+			continue
+		}
+		// only enforcement boundaries: the function stores (SetVariableValue/SetProperty/SetIndexZVal/Store)
+		// or is a Call method returning (value, control)
+		fk := funcKey(npkg, fd)
+		nres := 0
+		if fd.Type.Results != nil {
+			nres = fd.Type.Results.NumFields()
+		}
+		ctlLast := false
+		if sig, ok := info.Defs[fd.Name].Type().(*types.Signature); ok && sig.Results().Len() > 0 {
+			ctlLast = isNamed(sig.Results().At(sig.Results().Len()-1).Type(), dataPath, "Control")
+		}
+		if !ctlLast {
+			continue // predicates and helpers that answer bool are not boundaries
+		}
+		type rep struct {
+			key, msg string
+			pos      token.Pos
+			ok       bool
+		}
+		var reps []rep
+		seenTest := map[token.Pos]bool{}
+		h := &Hooks{Info: info}
+		h.Copy = func(s State) State {
+			n := &c07RejState{failed: map[string]token.Pos{}}
+			for k, v := range s.(*c07RejState).failed {
+				n.failed[k] = v
+			}
+			return n
+		}
+		h.Join = func(a, b State) State {
+			n := h.Copy(a).(*c07RejState)
+			for k, v := range b.(*c07RejState).failed {
+				if _, ok := n.failed[k]; !ok {
+					n.failed[k] = v
+				}
+			}
+			return n
+		}
+		h.Equal = func(a, b State) bool {
+			x, y := a.(*c07RejState), b.(*c07RejState)
+			if len(x.failed) != len(y.failed) {
+				return false
+			}
+			for k := range x.failed {
+				if _, ok := y.failed[k]; !ok {
+					return false
+				}
+			}
+			return true
+		}
+		h.Cond = func(e ast.Expr, truth bool, st State) State {
+			s := st.(*c07RejState)
+			if v, ok := isTypesIs(e); ok {
+				if !seenTest[e.Pos()] {
+					seenTest[e.Pos()] = true
+					reps = append(reps, rep{"type-test:" + v, "the false outcome of this test leads to a control on every path", e.Pos(), true})
+				}
+				if truth {
+					delete(s.failed, v)
+				} else {
+					s.failed[v] = e.Pos()
+				}
+			}
+			return s
+		}
+		flag := func(s *c07RejState, pos token.Pos, how string) {
+			for v, p := range s.failed {
+				for i := range reps {
+					if reps[i].pos == p {
+						reps[i].ok = false
+						reps[i].msg = fmt.Sprintf("after the declared type rejected %s here, the function still %s (line %d): a value of the wrong type is accepted at this boundary", v, how, r.Fset.Position(pos).Line)
+					}
+				}
+				delete(s.failed, v)
+			}
+		}
+		h.Visit = func(e ast.Expr, st State) State {
+			s := st.(*c07RejState)
+			if c, ok := e.(*ast.CallExpr); ok && len(s.failed) > 0 {
+				if se, ok := ast.Unparen(c.Fun).(*ast.SelectorExpr); ok {
+					switch se.Sel.Name {
+					case "SetVariableValue", "SetProperty", "SetIndexZVal", "Store":
+						flag(s, c.Pos(), "stores through "+se.Sel.Name)
+					}
+				}
+			}
+			return s
+		}
+		h.Return = func(rs *ast.ReturnStmt, st State) {
+			s := st.(*c07RejState)
+			if len(s.failed) == 0 || len(rs.Results) != nres || nres == 0 {
+				return
+			}
+			if exprStr(rs.Results[nres-1]) == "nil" {
+				flag(s, rs.Pos(), "returns successfully")
+			}
+		}
+		WalkFunc(h, fd.Body, &c07RejState{failed: map[string]token.Pos{}})
+		sort.SliceStable(reps, func(i, j int) bool { return reps[i].pos < reps[j].pos })
+		for _, x := range reps {
+			if x.ok {
+				r.ok(fk+"#"+x.key, x.pos, x.msg)
+			} else {
+				r.bad(fk+"#"+x.key, x.pos, x.msg)
+			}
+		}
+	}
+}
+
+// c07Pred: every `return true` of a visibility predicate is justified by an equality in which one
+// side is a party itself (caller class / bound scope / target class) and the other side belongs to the
+// other party (itself or its extends chain).
+func c07Pred(r *Run, npkg *packages.Package, preds map[string]bool) {
+	r.curRule = "C07-PRED"
+	info := npkg.TypesInfo
+	names := []string{}
+	for n := range preds {
+		names = append(names, n)
+	}
+	sort.Strings(names)
+	for _, name := range names {
+		fd := findFunc(npkg, "", name)
+		if fd == nil {
+			continue
+		}
+		fk := funcKey(npkg, fd)
+		// tags: 1=C0 2=C+ 4=T0 8=T+
+		tags := map[types.Object]int{}
+		var ctxObj types.Object
+		for _, f := range fd.Type.Params.List {
+			for _, nm := range f.Names {
+				o := info.Defs[nm]
+				t := info.TypeOf(f.Type)
+				switch {
+				case isNamed(t, modPath+"/data", "ClassStmt"):
+					tags[o] = 4
+				case isNamed(t, modPath+"/data", "Context"):
+					ctxObj = o
+					tags[o] = 1
+				}
+			}
+		}
+		var tagOf func(e ast.Expr) int
+		tagOf = func(e ast.Expr) int {
+			switch x := ast.Unparen(e).(type) {
+			case *ast.Ident:
+				return tags[info.Uses[x]]
+			case *ast.StarExpr:
+				return tagOf(x.X)
+			case *ast.SelectorExpr:
+				return tagOf(x.X) // field of a tagged value (cmc.Class, bc.ScopeClass)
+			case *ast.TypeAssertExpr:
+				return tagOf(x.X)
+			case *ast.CallExpr:
+				if se, ok := ast.Unparen(x.Fun).(*ast.SelectorExpr); ok {
+					base := tagOf(se.X)
+					switch se.Sel.Name {
+					case "GetName":
+						return base
+					case "GetExtend":
+						return derive(base)
+					}
+				}
+				// any other call: derived from its class-tagged arguments
+				out := 0
+				for _, a := range x.Args {
+					out |= derive(tagOf(a))
+				}
+				return out
+			}
+			return 0
+		}
+		_ = ctxObj
+		for pass := 0; pass < 4; pass++ {
+			ast.Inspect(fd.Body, func(n ast.Node) bool {
+				as, ok := n.(*ast.AssignStmt)
+				if !ok {
+					return true
+				}
+				for i, l := range as.Lhs {
+					id, ok := l.(*ast.Ident)
+					if !ok || id.Name == "_" {
+						continue
+					}
+					o := info.Defs[id]
+					if o == nil {
+						o = info.Uses[id]
+					}
+					if o == nil {
+						continue
+					}
+					var rhs ast.Expr
+					if len(as.Rhs) == len(as.Lhs) {
+						rhs = as.Rhs[i]
+					} else if len(as.Rhs) == 1 && i == 0 {
+						rhs = as.Rhs[0]
+					}
+					if rhs != nil {
+						tags[o] |= tagOf(rhs)
+					}
+				}
+				return true
+			})
+		}
+		// bool locals defined once by an expression: the condition may name them
+		boolDefs := map[types.Object]ast.Expr{}
+		ast.Inspect(fd.Body, func(n ast.Node) bool {
+			if as, ok := n.(*ast.AssignStmt); ok && len(as.Lhs) == 1 && len(as.Rhs) == 1 {
+				if id, ok := as.Lhs[0].(*ast.Ident); ok {
+					if o := info.Defs[id]; o != nil {
+						if b, ok := o.Type().Underlying().(*types.Basic); ok && b.Kind() == types.Bool {
+							boolDefs[o] = as.Rhs[0]
+						}
+					}
 				}
 			}
 			return true
 		})
-		if found {
-			r.ok(key, fd.Pos(), "instantiating a concrete class validates that every inherited abstract method is implemented")
+		var justified func(cond ast.Expr) bool
+		justified = func(cond ast.Expr) bool {
+			good := false
+			ast.Inspect(cond, func(n ast.Node) bool {
+				if id, ok := n.(*ast.Ident); ok {
+					if def, ok := boolDefs[info.Uses[id]]; ok && justified(def) {
+						good = true
+					}
+				}
+				be, ok := n.(*ast.BinaryExpr)
+				if !ok || be.Op != token.EQL {
+					return true
+				}
+				a, b := tagOf(be.X), tagOf(be.Y)
+				// acceptable pairings: (C0,T0) (C+,T0) (C0,T+) in either order
+				pair := func(x, y int) bool {
+					return (x&1 != 0 && y&4 != 0) || (x&2 != 0 && y&4 != 0) || (x&1 != 0 && y&8 != 0)
+				}
+				if pair(a, b) || pair(b, a) {
+					good = true
+				}
+				return true
+			})
+			return good
+		}
+		// enclosing if-conditions (body side) of each `return true`
+		var visit func(list []ast.Stmt, conds []ast.Expr)
+		n := 0
+		visit = func(list []ast.Stmt, conds []ast.Expr) {
+			for _, st := range list {
+				switch x := st.(type) {
+				case *ast.ReturnStmt:
+					if len(x.Results) == 1 && exprStr(x.Results[0]) == "true" {
+						n++
+						ok := false
+						for _, c := range conds {
+							if justified(c) {
+								ok = true
+							}
+						}
+						key := fk + "#grants"
+						if ok {
+							r.ok(key, x.Pos(), "access is granted on an identity between one party itself and the other party or its ancestors")
+						} else {
+							r.bad(key, x.Pos(), "access is granted without an identity between one party itself and a member of the other's extends chain (for example on two chains meeting at a common root): unrelated or sibling classes reach private/protected members")
+						}
+					}
+				case *ast.IfStmt:
+					visit(x.Body.List, append(append([]ast.Expr{}, conds...), x.Cond))
+					if x.Else != nil {
+						if eb, ok := x.Else.(*ast.BlockStmt); ok {
+							visit(eb.List, conds)
+						} else {
+							visit([]ast.Stmt{x.Else}, conds)
+						}
+					}
+				case *ast.ForStmt:
+					visit(x.Body.List, conds)
+				case *ast.RangeStmt:
+					visit(x.Body.List, conds)
+				case *ast.BlockStmt:
+					visit(x.List, conds)
+				case *ast.SwitchStmt:
+					for _, cc := range x.Body.List {
+						visit(cc.(*ast.CaseClause).Body, conds)
+					}
+				}
+			}
+		}
+		visit(fd.Body.List, nil)
+		if n == 0 {
+			r.fail("visibility predicate %s never returns true", name)
+		}
+	}
+}
+
+func derive(t int) int {
+	out := 0
+	if t&3 != 0 {
+		out |= 2
+	}
+	if t&12 != 0 {
+		out |= 8
+	}
+	return out
+}
+
+type c07ValState struct {
+	called, validated, abstract bool
+	memo                        map[*types.Var]bool // bool fields known true on this path
+}
+
+// c07Validates: on every path to the creation of the object (NewClassValue) the class is abstract,
+// or ValidateConcreteClassAbstractMethods was called and answered nil, or the path was taken under a
+// bool field that is only ever set after such a successful validation.
+func c07Validates(r *Run, npkg *packages.Package, fd *ast.FuncDecl) {
+	info := npkg.TypesInfo
+	recv := info.Defs[fd.Recv.List[0].Names[0]]
+	key := funcKey(npkg, fd) + "#validates-abstract-methods"
+	fieldOfRecv := func(e ast.Expr) *types.Var {
+		se, ok := ast.Unparen(e).(*ast.SelectorExpr)
+		if !ok {
+			return nil
+		}
+		if id, ok := ast.Unparen(se.X).(*ast.Ident); !ok || info.Uses[id] != recv {
+			return nil
+		}
+		if sel, ok := info.Selections[se]; ok {
+			if v, ok := sel.Obj().(*types.Var); ok {
+				return v
+			}
+		}
+		return nil
+	}
+	memoSetUnvalidated := map[*types.Var]bool{} // field set to true on a path without a successful validation
+	type creation struct {
+		pos token.Pos
+		st  c07ValState
+	}
+	var creations []creation
+	h := &Hooks{Info: info}
+	h.Copy = func(s State) State {
+		x := s.(*c07ValState)
+		n := &c07ValState{called: x.called, validated: x.validated, abstract: x.abstract, memo: map[*types.Var]bool{}}
+		for k := range x.memo {
+			n.memo[k] = true
+		}
+		return n
+	}
+	h.Join = func(a, b State) State {
+		x, y := a.(*c07ValState), b.(*c07ValState)
+		n := &c07ValState{called: x.called && y.called, validated: x.validated && y.validated, abstract: x.abstract && y.abstract, memo: map[*types.Var]bool{}}
+		// a path qualifies by any one of its reasons; keep per-path reasons by recording a synthetic reason
+		if (x.validated || x.abstract || len(x.memo) > 0) && (y.validated || y.abstract || len(y.memo) > 0) {
+			// both sides are covered by some reason: remember that as "validated-or-equivalent" unless a memo is needed
+			for k := range x.memo {
+				n.memo[k] = true
+			}
+			for k := range y.memo {
+				n.memo[k] = true
+			}
+			if !(x.validated && y.validated) && !(x.abstract && y.abstract) && len(n.memo) == 0 {
+				n.validated = true // mixed reasons (abstract on one side, validated on the other)
+			}
+			if (x.validated || x.abstract) && (y.validated || y.abstract) {
+				n.validated = true
+				n.memo = map[*types.Var]bool{}
+			}
+		}
+		return n
+	}
+	h.Equal = func(a, b State) bool {
+		x, y := a.(*c07ValState), b.(*c07ValState)
+		return x.called == y.called && x.validated == y.validated && x.abstract == y.abstract && len(x.memo) == len(y.memo)
+	}
+	h.Cond = func(e ast.Expr, truth bool, st State) State {
+		s := st.(*c07ValState)
+		neg := false
+		x := ast.Unparen(e)
+		if u, ok := x.(*ast.UnaryExpr); ok && u.Op == token.NOT {
+			neg, x = true, ast.Unparen(u.X)
+		}
+		if f := fieldOfRecv(x); f != nil {
+			if b, ok := f.Type().Underlying().(*types.Basic); ok && b.Kind() == types.Bool {
+				isTrue := truth != neg
+				if f.Name() == "IsAbstract" {
+					if isTrue {
+						s.abstract = true
+					}
+				} else if isTrue {
+					s.memo[f] = true
+				}
+			}
+		}
+		if be, ok := x.(*ast.BinaryExpr); ok && exprStr(be.Y) == "nil" && s.called {
+			if (be.Op == token.NEQ && !truth) || (be.Op == token.EQL && truth) {
+				s.validated = true
+			}
+		}
+		return s
+	}
+	h.Visit = func(e ast.Expr, st State) State {
+		s := st.(*c07ValState)
+		if c, ok := e.(*ast.CallExpr); ok {
+			if f, ok := calleeOf(info, c).(*types.Func); ok {
+				switch f.Name() {
+				case "ValidateConcreteClassAbstractMethods":
+					s.called = true
+				case "NewClassValue":
+					cp := *s
+					cp.memo = map[*types.Var]bool{}
+					for k := range s.memo {
+						cp.memo[k] = true
+					}
+					creations = append(creations, creation{c.Pos(), cp})
+				}
+			}
+		}
+		return s
+	}
+	h.Stmt = func(stm ast.Stmt, st State) State {
+		s := st.(*c07ValState)
+		if as, ok := stm.(*ast.AssignStmt); ok {
+			for i, l := range as.Lhs {
+				if f := fieldOfRecv(l); f != nil && i < len(as.Rhs) && exprStr(as.Rhs[i]) == "true" && !s.validated {
+					memoSetUnvalidated[f] = true
+				}
+			}
+		}
+		return s
+	}
+	WalkFunc(h, fd.Body, &c07ValState{memo: map[*types.Var]bool{}})
+	if len(creations) == 0 {
+		r.fail("%s creates no object (NewClassValue not found)", funcKey(npkg, fd))
+		return
+	}
+	for _, c := range creations {
+		okReason := c.st.validated || c.st.abstract
+		for f := range c.st.memo {
+			if !memoSetUnvalidated[f] {
+				okReason = true
+			}
+		}
+		if okReason {
+			r.ok(key, c.pos, "the object is created only for an abstract-free class: validation answered nil on this path (or the class is abstract and rejected elsewhere)")
 		} else {
-			r.bad(key, fd.Pos(), "instantiation no longer validates inherited abstract methods")
+			r.bad(key, c.pos, "the object is created on a path on which the inherited abstract methods were not validated (validation skipped, or skipped under a flag that is set before the validation has succeeded)")
 		}
 	}
 }
